@@ -89,6 +89,8 @@ pub struct Probe {
     pub src_consumed: u32,
     pub spawned: u32,
     pub toks_created: u32,
+    /// the same four counters after the setters of this position ran
+    pub after: (u32, u32, u32, u32),
 }
 
 #[derive(Debug)]
@@ -139,7 +141,13 @@ impl Settings {
             self.set_cs(pos, p)
         };
         let params_after = p.params();
-        self.probes.borrow_mut().push(Probe { pos, params_before, params_after, calls, src_consumed, spawned, toks_created });
+        let after = (
+            crate::closures::N_CALLS.load(std::sync::atomic::Ordering::SeqCst),
+            crate::source::SRC_NEXTS.load(std::sync::atomic::Ordering::SeqCst),
+            crate::glue::take_spawn_count(),
+            crate::tok::created(),
+        );
+        self.probes.borrow_mut().push(Probe { pos, params_before, params_after, calls, src_consumed, spawned, toks_created, after });
         p
     }
 
